@@ -141,6 +141,13 @@ fn gen_pool(src: &mut Src) -> (Vec<Value>, Vec<String>, Vec<Vec<bool>>) {
     let pat = regexo::render(&re);
     let subjects: Vec<J> = (0..4).map(|_| J::Str(regexo::gen_subject(&re, src))).collect();
     docs.push(J::Obj(vec![("s".into(), J::Arr(subjects)), ("p".into(), J::Str(pat.clone()))]));
+    // two documents of the same shape whose long lists (same length) differ in content: copied into the
+    // reused slot they occupy the same allocation
+    for variant in 0..2 {
+        let list: Vec<J> = (0..40).map(|i| J::Str(format!("w{}", (i * 7 + variant * 3) % 50))).collect();
+        let elems: Vec<J> = (0..6).map(|i| J::Str(format!("w{}", i * 5))).collect();
+        docs.push(J::Obj(vec![("e".into(), J::Arr(elems)), ("l".into(), J::Arr(list)), ("p".into(), J::Str("w.*".into()))]));
+    }
     // a deep, narrow document (many simultaneous levels of `..` when several threads walk it)
     let depth = 40 + src.below(70);
     let mut deep = J::Int(1);
@@ -165,6 +172,9 @@ fn gen_pool(src: &mut Src) -> (Vec<Value>, Vec<String>, Vec<Vec<bool>>) {
     queries.push("$..*".to_string());
     queries.push("$..a".to_string());
     queries.push("$..[?$.p]".to_string());
+    queries.push("$.e[?in(@, $.l)]".to_string());
+    queries.push("$.e[?nin(@, $.l)]".to_string());
+    queries.push("$[?subset_of($.e, @)]".to_string());
     queries.push("$[?$.a && @]".to_string());
     queries.push("$.*[?!$.b]".to_string());
     queries.push("$..[?$.s[?@ == $.p] || @ == 1]".to_string());
@@ -223,7 +233,7 @@ pub fn once_main() -> i32 {
     install_quiet_panic_hook();
     let mut s = String::new();
     let _ = std::io::Read::read_to_string(&mut std::io::stdin(), &mut s);
-    let v: Value = serde_json::from_str(&s).unwrap_or(Value::Null);
+    let v: Value = crate::json::parse_json_unbounded(&s).unwrap_or(Value::Null);
     let q = v["query"].as_str().unwrap_or("");
     println!("{}", result_of(&v["doc"], q));
     0
@@ -333,6 +343,7 @@ fn random_history(src: &mut Src, obs: &mut Obs) -> Res {
 fn random_threads(src: &mut Src, obs: &mut Obs) -> Res {
     let (docs, queries, allowed) = gen_pool(src);
     let cheap = queries.iter().position(|q| q == "$..a").unwrap_or(0);
+    let deep_index = docs.len() - 1;
     let nthreads = *src.pick(&[2usize, 3, 4, 8, 16]);
     let rounds = 20 + src.below(40);
     // sequential reference
@@ -352,7 +363,7 @@ fn random_threads(src: &mut Src, obs: &mut Obs) -> Res {
                     if t % 2 == 0 {
                         // the deep document under `$..a` / `$..*` (index of "$..a" and "$..*" in the pool)
                         let qi = queries.iter().position(|q| q == if (t / 2) % 2 == 0 { "$..a" } else { "$..*" }).unwrap_or(0);
-                        (docs.len() - 1, qi, src.chance(1, 4))
+                        (deep_index, qi, src.chance(1, 4))
                     } else {
                         let (d, q) = (src.below(docs.len()), src.below(queries.len()));
                         (d, if allowed[d][q] { q } else { cheap }, src.chance(1, 4))
